@@ -633,8 +633,9 @@ fn e2e_cfg() -> Vec<(String, String)> {
     vec![("error_on_line_overflow".into(), "true".into()), ("error_on_unformatted".into(), "true".into())]
 }
 
-fn generated(o: &mut Outcome, rng: &mut Rng, thorough: bool) {
-    let nprog = if thorough { 8000 } else { 250 };
+fn generated(o: &mut Outcome, rng: &mut Rng, thorough: bool, extra: &[(String, String)], nprog: usize) {
+    let tag = if extra.is_empty() { String::new() } else { format!("[{}]", crate::gen::cfg_text(extra)) };
+    let run_cfg = crate::gen::merge_cfg(&e2e_cfg(), extra);
     let nsel = if thorough { 8 } else { 6 };
     let progs: Vec<Program> = (0..nprog).map(|_| gen_program(rng)).collect();
     // formatted pieces, each distinct (wrapper, piece) once
@@ -645,7 +646,7 @@ fn generated(o: &mut Outcome, rng: &mut Rng, thorough: bool) {
         }
     }
     let pieces: Vec<(String, usize, usize)> = pieces.into_iter().collect();
-    let pjobs: Vec<Job> = pieces.iter().map(|(s, _, _)| Job { src: s.clone(), cfg: vec![], file_lines: None }).collect();
+    let pjobs: Vec<Job> = pieces.iter().map(|(s, _, _)| Job { src: s.clone(), cfg: extra.to_vec(), file_lines: None }).collect();
     let pres = pool::run_jobs(&pjobs, jobs(), Duration::from_secs(10));
     let mut cache: Cache = BTreeMap::new();
     for ((s, front, back), r) in pieces.iter().zip(pres.iter()) {
@@ -669,11 +670,13 @@ fn generated(o: &mut Outcome, rng: &mut Rng, thorough: bool) {
     let mut jobs_v: Vec<Job> = vec![];
     let mut sels: Vec<Option<Sel>> = vec![];
     let mut inputs: Vec<String> = vec![];
+    // per program: the line ranges of its leaves (statements, fields, one-piece items)
+    let mut leaves: Vec<Vec<R>> = vec![];
     for (pi, p) in progs.iter().enumerate() {
         let lines = program_input(p);
         let src = lines.join("\n") + "\n";
         inputs.push(src.clone());
-        jobs_v.push(Job { src: src.clone(), cfg: e2e_cfg(), file_lines: None });
+        jobs_v.push(Job { src: src.clone(), cfg: run_cfg.clone(), file_lines: None });
         sels.push(None);
         let (mut atomic, mut all) = (vec![], vec![]);
         let mut line = 1;
@@ -683,17 +686,18 @@ fn generated(o: &mut Outcome, rng: &mut Rng, thorough: bool) {
             }
             spans(n, 0, &mut line, &mut atomic, &mut all);
         }
+        leaves.push(all.iter().copied().filter(|r| atomic.contains(r)).collect());
         let mut list: Vec<(Vec<R>, &'static str)> = vec![(vec![], "empty selection []"), (vec![(lines.len() + 2, lines.len() + 7)], "past the end")];
         for _ in 0..nsel {
             list.push(gen_selection(rng, lines.len(), &all, &atomic));
         }
         for (rs, kind) in list {
             let idx = jobs_v.len();
-            jobs_v.push(Job { src: src.clone(), cfg: e2e_cfg(), file_lines: Some(sel_json(&rs)) });
+            jobs_v.push(Job { src: src.clone(), cfg: run_cfg.clone(), file_lines: Some(sel_json(&rs)) });
             sels.push(Some(Sel { prog: pi, ranges: rs.clone(), kind, union_of: None }));
             if kind == "adjacent" || kind == "overlapping" {
                 let u = vec![(rs[0].0.min(rs[1].0), rs[0].1.max(rs[1].1))];
-                jobs_v.push(Job { src: src.clone(), cfg: e2e_cfg(), file_lines: Some(sel_json(&u)) });
+                jobs_v.push(Job { src: src.clone(), cfg: run_cfg.clone(), file_lines: Some(sel_json(&u)) });
                 sels.push(Some(Sel { prog: pi, ranges: u, kind: "union of the pair", union_of: Some(idx) }));
             }
         }
@@ -730,16 +734,33 @@ fn generated(o: &mut Outcome, rng: &mut Rng, thorough: bool) {
             o.count("gen:timeout");
             continue;
         }
+        let src = &inputs[s.prog];
+        let desc = format!("{} {}", s.kind, enc_rs(&s.ranges));
+        // model-free clause of the property, for every program (compositional or not): a statement / field / one-piece item
+        // that does not meet the selection comes out byte for byte (from its first to its last non-blank character)
+        if usable(r) && !r.out.is_empty() {
+            let in_lines: Vec<&str> = src.lines().collect();
+            for (lo, hi) in &leaves[s.prog] {
+                if meets(&s.ranges, *lo, *hi) || *hi > in_lines.len() {
+                    continue;
+                }
+                let text = in_lines[*lo - 1..*hi].join("\n");
+                let text = text.trim();
+                o.direct_evals += 1;
+                if !text.is_empty() && !r.out.contains(text) {
+                    o.direct_failures.push(json!({"sig": "c17:unselected-leaf-changed", "what": format!("lines {}..{} do not meet the selection but their text is not in the output any more", lo, hi), "selection": desc, "config": tag, "src": src, "got": r.out}));
+                    break;
+                }
+            }
+        }
         if !decomposable[s.prog] {
             continue;
         }
-        let src = &inputs[s.prog];
-        let desc = format!("{} {}", s.kind, enc_rs(&s.ranges));
         if !usable(r) {
-            o.direct_failures.push(json!({"sig": "c17:restricted-run-fails", "what": format!("status {:?} flags {:?}", r.status, r.flags), "selection": desc, "src": src}));
+            o.direct_failures.push(json!({"sig": "c17:restricted-run-fails", "what": format!("status {:?} flags {:?}", r.status, r.flags), "selection": desc, "config": tag, "src": src}));
             continue;
         }
-        o.count(&format!("gen:selection={}", s.kind));
+        o.count(&format!("gen{}:selection={}", if tag.is_empty() { "" } else { "+opt" }, s.kind));
         o.direct_evals += 1;
         let rs = s.ranges.clone();
         let a = assemble_program(&progs[s.prog], &move |lo, hi| meets(&rs, lo, hi), &cache);
@@ -767,7 +788,7 @@ fn generated(o: &mut Outcome, rng: &mut Rng, thorough: bool) {
             o.count("gen:gap-whitespace-of-a-verbatim-piece-rewritten(allowed)");
         } else if r.out != expected {
             let sig = if s.ranges.is_empty() { "c17:empty-selection-changes-text" } else { "c17:restricted-output-differs" };
-            o.direct_failures.push(json!({"sig": sig, "what": "restricted output is not (verbatim unselected pieces + unrestricted formatting of the selected ones)", "selection": desc, "src": src, "expected": expected, "got": r.out}));
+            o.direct_failures.push(json!({"sig": sig, "what": "restricted output is not (verbatim unselected pieces + unrestricted formatting of the selected ones)", "selection": desc, "config": tag, "src": src, "expected": expected, "got": r.out}));
             continue;
         }
         // adjacent / overlapping ranges behave as their union
@@ -1036,7 +1057,20 @@ pub fn run(tier: &str, seed: u64, out: &Path) -> i32 {
     let thorough = tier == "thorough";
     let mut rng = Rng::new(seed ^ 0xc17);
     algebra(&mut o, &mut rng, thorough);
-    generated(&mut o, &mut rng, thorough);
+    generated(&mut o, &mut rng, thorough, &[], if thorough { 8000 } else { 250 });
+    // the same under options that move code across lines (one at a time, 20 options; 150 programs each in quick, 600 in thorough)
+    {
+        const OPTS: &[(&str, &str)] = &[("fn_single_line", "true"), ("empty_item_single_line", "false"), ("brace_style", "AlwaysNextLine"), ("control_brace_style", "AlwaysNextLine"), ("where_single_line", "true"), ("struct_lit_single_line", "false"), ("match_block_trailing_comma", "true"), ("trailing_semicolon", "false"), ("fn_params_layout", "Vertical"), ("indent_style", "Visual"), ("hard_tabs", "true"), ("tab_spaces", "2"), ("max_width", "40"), ("use_small_heuristics", "Max"), ("blank_lines_upper_bound", "0"), ("match_arm_blocks", "false"), ("force_multiline_blocks", "true"), ("combine_control_expr", "false"), ("trailing_comma", "Never"), ("reorder_impl_items", "true")];
+        let mut order: Vec<usize> = (0..OPTS.len()).collect();
+        for i in (1..order.len()).rev() {
+            order.swap(i, rng.below(i + 1));
+        }
+        let take = OPTS.len();
+        for k in order.into_iter().take(take) {
+            let extra = vec![(OPTS[k].0.to_string(), OPTS[k].1.to_string())];
+            generated(&mut o, &mut rng, thorough, &extra, if thorough { 600 } else { 150 });
+        }
+    }
     import_gaps(&mut o, &mut rng, thorough);
     fixtures(&mut o, &mut rng, thorough);
     probes(&mut o);
